@@ -819,3 +819,17 @@ CASES += [
     ("it_chain", [[1, 2], [3]]), ("it_chain", [[], []]), ("it_shared_iterator", [[1, 2, 3, 4], 2]), ("it_shared_iterator", [[1], 3]),
     ("it_misc", [[1, 2, 3, 4]]), ("it_groupby", [[1, 2, 3]]), ("takewhile_then_zip", [[1, 2, None, 4], ["a", "b", "c", "d"]]),
 ]
+
+
+import functools as _ft
+
+
+def partial_divmod(a, b):
+    def f(x, y, z=0):
+        return [x, y, z]
+    p = _ft.partial(f, 1, z=5)
+    q = _ft.partial(f, 1)
+    return [p(2), q(2), q(2, z=3), divmod(a, b), divmod(-a, b), divmod(a, -b)]
+
+
+CASES += [("partial_divmod", [7, 3]), ("partial_divmod", [0, 5])]
